@@ -46,6 +46,35 @@ type powerFS struct {
 	failLogWrite int
 	logWrites    int
 	ioFired      bool
+	// generalised: the counted operation number failOp (write, file sync, dir sync,
+	// create, rename; see opEligible) returns an error and has no effect; <0: never
+	failOp      int
+	failRegular bool // regular tan: the fsync of a log file is not failed (it runs in a goroutine that panics)
+	failNow     bool
+	failedLabel string
+}
+
+// opEligible: the operations the save path of tan performs on the calling
+// goroutine. remove/removeall belong to the background deletion worker (it
+// panics on an error), link/mkdir/lock/reuse are not used while saving.
+func (p *powerFS) opEligible(label string) bool {
+	switch {
+	case strings.HasPrefix(label, "write "), strings.HasPrefix(label, "syncdir "),
+		strings.HasPrefix(label, "create "), strings.HasPrefix(label, "rename "):
+		return true
+	case strings.HasPrefix(label, "sync "):
+		return !(p.failRegular && strings.HasSuffix(label, ".log"))
+	}
+	return false
+}
+
+// takeFail reports (once) that the operation just noted has to fail (p.mu is held).
+func (p *powerFS) takeFail() bool {
+	if p.failNow {
+		p.failNow = false
+		return true
+	}
+	return false
 }
 
 var errInjectedWrite = errors.New("c10: injected log file write error")
@@ -65,7 +94,7 @@ func (p *powerFS) logWriteFails(name string) bool {
 }
 
 func newPowerFS(mem *gvfs.MemFS, cut int, record bool) *powerFS {
-	p := &powerFS{mem: mem, cut: cut, record: record, open: map[*powerFile]struct{}{}, failLogWrite: -1}
+	p := &powerFS{mem: mem, cut: cut, record: record, open: map[*powerFile]struct{}{}, failLogWrite: -1, failOp: -1}
 	switch os.Getenv("C10_CRASH_SELFTEST") {
 	case "nosync":
 		p.dropLogSync = true
@@ -86,6 +115,11 @@ func (p *powerFS) note(label string) bool {
 	if !p.off && p.cut >= 0 && p.count >= p.cut {
 		p.off = true
 		p.mem.SetIgnoreSyncs(true)
+	}
+	if p.failOp >= 0 && p.count == p.failOp && p.opEligible(label) {
+		p.failNow = true
+		p.ioFired = true
+		p.failedLabel = label
 	}
 	p.count++
 	if p.record {
@@ -171,7 +205,7 @@ func (f *powerFile) Write(b []byte) (int, error) {
 	if !f.p.note("write " + short(f.name)) {
 		return len(b), nil
 	}
-	if f.p.logWriteFails(f.name) {
+	if f.p.logWriteFails(f.name) || f.p.takeFail() {
 		return 0, errInjectedWrite
 	}
 	return f.File.Write(b)
@@ -183,7 +217,7 @@ func (f *powerFile) WriteAt(b []byte, off int64) (int, error) {
 	if !f.p.note("write " + short(f.name)) {
 		return len(b), nil
 	}
-	if f.p.logWriteFails(f.name) {
+	if f.p.logWriteFails(f.name) || f.p.takeFail() {
 		return 0, errInjectedWrite
 	}
 	return f.File.WriteAt(b, off)
@@ -198,6 +232,9 @@ func (f *powerFile) Sync() error {
 	}
 	if !f.p.note(label + short(f.name)) {
 		return nil
+	}
+	if f.p.takeFail() {
+		return errInjectedWrite
 	}
 	if f.closed {
 		// tan's sequentialSaveState returns on a write error without waiting for the
@@ -285,6 +322,9 @@ func (p *powerFS) Create(name string) (gvfs.File, error) {
 	if !p.note("create " + short(name)) {
 		return voidFile{}, nil
 	}
+	if p.takeFail() {
+		return nil, errInjectedWrite
+	}
 	f, err := p.mem.Create(name)
 	return p.wrap(f, name, err)
 }
@@ -357,6 +397,9 @@ func (p *powerFS) Rename(oldname, newname string) error {
 	defer p.mu.Unlock()
 	if !p.note("rename " + short(oldname) + " " + short(newname)) {
 		return nil
+	}
+	if p.takeFail() {
+		return errInjectedWrite
 	}
 	return p.mem.Rename(oldname, newname)
 }
